@@ -168,7 +168,8 @@ func (w *vWorld) SendMessage(buf []byte, msg *protocol.UDPMessage) error {
 		c.gate = nil
 		w.mu.Unlock()
 		return err
-	case res == "big":
+	case res == "big" && len(data) > 5:
+		// (a real connection refuses a datagram as too large only if it IS larger than the limit it reports)
 		w.bigData, w.bigSid, w.bigOff = data, msg.SessionID, 0
 		w.mu.Unlock()
 		return &quic.DatagramTooLargeError{MaxDatagramPayloadSize: int64(msg.HeaderSize() + 5)}
@@ -685,7 +686,7 @@ func (h *vHist) do(op string) (res vh.Result) {
 					delete(h.exp, c.owner)
 				}
 			}
-			if f[4] == "big" {
+			if f[4] == "big" && len(data) > 5 {
 				h.w.mu.Lock()
 				if h.w.bigOff != len(h.w.bigData) {
 					h.w.fail("upstream packet of %d bytes was refused as too large but only %d bytes were re-sent as fragments", len(h.w.bigData), h.w.bigOff)
